@@ -8,7 +8,7 @@ kept, dropped = [], []
 for r in res:
     sid = r["id"]
     tag, k = sid.split("-")
-    prop = tag.lstrip("UVX")
+    prop = tag.lstrip("UVXZ")
     src = "/tmp/seed/%s/%s" % (tag, k)
     if not os.path.isdir(src):
         continue  # results of an earlier round whose scratch directory is gone: already kept
